@@ -149,20 +149,7 @@ def check_writer(ctx, m, fn: ast.FunctionDef, label: str, informational: bool = 
                     if tgt is None:
                         continue
                     ctx.analysed(tgt)
-                    muts = []
-                    for x in source.walk_own(tgt):
-                        tg = x.targets if isinstance(x, ast.Assign) else [x.target] if isinstance(x, (ast.AugAssign, ast.AnnAssign)) else []
-                        for t in tg:
-                            root = t
-                            while isinstance(root, (ast.Subscript, ast.Attribute)):
-                                if isinstance(root, ast.Attribute) and isinstance(root.value, ast.Name) and root.value.id == "self":
-                                    muts.append(x)
-                                    break
-                                root = root.value
-                        if isinstance(x, ast.Delete):
-                            for t in x.targets:
-                                if source.src(t).startswith("self."):
-                                    muts.append(x)
+                    muts = mutations_of_self(tgt)
                     for mu in muts:
                         ctx.ob("C14.A4-serialiser-is-pure", mu, False,
                                "%s: the serialiser %s assigns to the object it persists (%s): every update changes the stored "
@@ -173,6 +160,64 @@ def check_writer(ctx, m, fn: ast.FunctionDef, label: str, informational: bool = 
                                "%s: serialiser %s does not modify the object it persists" % (label, cn),
                                construct="%s has no assignment to self.*" % cn)
     return n
+
+
+MUTATORS = {"update", "pop", "popitem", "setdefault", "clear", "append", "extend", "insert", "remove", "sort", "reverse",
+            "add", "discard", "__setitem__", "__delitem__"}
+
+
+def mutations_of_self(fn: ast.AST) -> List[ast.AST]:
+    """statements of fn that modify the receiver: stores / deletes / mutator calls whose target is rooted at self.<attr>
+    or at a local name that aliases (without copying) something rooted at self.<attr>."""
+    def root_of(e: ast.AST):
+        while isinstance(e, (ast.Subscript, ast.Attribute)):
+            if isinstance(e, ast.Attribute) and isinstance(e.value, ast.Name) and e.value.id == "self":
+                return "self"
+            e = e.value
+        return e.id if isinstance(e, ast.Name) else None
+    aliases = set()
+    changed = True
+    while changed:
+        changed = False
+        for x in source.walk_own(fn):
+            if isinstance(x, ast.Assign) and len(x.targets) == 1 and isinstance(x.targets[0], ast.Name):
+                v = x.value
+                # a plain reference (no call, no literal, no comprehension): the same object
+                if isinstance(v, (ast.Attribute, ast.Subscript, ast.Name)):
+                    r = root_of(v)
+                    if (r == "self" and not isinstance(v, ast.Name)) or (r in aliases):
+                        if x.targets[0].id not in aliases:
+                            aliases.add(x.targets[0].id)
+                            changed = True
+                # dict.get / setdefault hand out the stored object
+                if isinstance(v, ast.Call) and isinstance(v.func, ast.Attribute) and v.func.attr in ("get", "setdefault"):
+                    r = root_of(v.func.value)
+                    if r == "self" or r in aliases:
+                        if x.targets[0].id not in aliases:
+                            aliases.add(x.targets[0].id)
+                            changed = True
+    muts: List[ast.AST] = []
+
+    def is_target(t: ast.AST) -> bool:
+        if not isinstance(t, (ast.Subscript, ast.Attribute)):
+            return False
+        r = root_of(t)
+        return r == "self" or r in aliases
+    for x in source.walk_own(fn):
+        tg = x.targets if isinstance(x, ast.Assign) else [x.target] if isinstance(x, (ast.AugAssign, ast.AnnAssign)) else []
+        flat = []
+        for t in tg:
+            flat.extend(t.elts if isinstance(t, (ast.Tuple, ast.List)) else [t])
+        if any(is_target(t) for t in flat):
+            muts.append(x)
+        if isinstance(x, ast.Delete) and any(is_target(t) for t in x.targets):
+            muts.append(x)
+        if isinstance(x, ast.Call) and isinstance(x.func, ast.Attribute) and x.func.attr in MUTATORS:
+            recv = x.func.value
+            r = root_of(recv)
+            if (r == "self" and not (isinstance(recv, ast.Name))) or (r in aliases):
+                muts.append(x)
+    return muts
 
 
 def run(ctx) -> None:
